@@ -623,3 +623,89 @@ class LexCheck:
         if hash(tuple(map(str, ex.decisions))) % 101 == 0:
             rec['sample'] = {'variant': bytes_repr(model_bytes(ex.path_model(), s.msg)), 'canonical': bytes_repr(bytes(s.canonical()))}
         return rec
+
+
+# ----------------------------------------------------------------------------- C02 on a tree with short/long forms, optional nodes and standard commands
+T3_UNITS = ['ABC:DEF', ':X:Y', 'Y?', ':Y', 'TST:A', 'TEST:A?', 'GH1_:I2 5', 'OPT:INN:LEAF?', ':LEAF?', '*IDN?', '*RST', 'SYST:VAL?', ':SYST:VERS?', 'SYST:ERR?',
+            'SYSTEM:ERROR:NEXT?', 'SYST:ERR:COUN?', 'DF', 'DEF', 'Y', 'A', 'A?', 'I2 5', 'LEAF?', 'INNER:LEAF?', 'VAL?', 'VERS?', 'ERR?', 'COUN?', 'NEXT?', 'ERR:COUN?', 'X:Y?']
+STD_TEXT = {'SYSTem:VERSion?': b'1999.0\n', 'SYSTem:ERRor:[NEXT]?': b'0,""\n', 'SYSTem:ERRor:COUNt?': b'0\n'}
+
+
+def unit_struct(text):
+    t = text
+    nargs = 0
+    if ' ' in t:
+        t, _ = t.split(' ', 1)
+        nargs = 1
+    q = t.endswith('?')
+    if q:
+        t = t[:-1]
+    if t.startswith('*'):
+        return {'common': True, 'abs': False, 'mnems': [list(t[1:].encode())], 'query': q, 'nargs': nargs}
+    ab = t.startswith(':')
+    if ab:
+        t = t[1:]
+    return {'common': False, 'abs': ab, 'mnems': [list(m.encode()) for m in t.split(':')], 'query': q, 'nargs': nargs}
+
+
+class ConcretePathCheck:
+    """C02 on device T3: every message of 1..k units from a library of absolute, relative and common headers (short and long
+    forms, optional nodes, standard commands), followed by a relative probe message; reference: the same SCPI path resolver"""
+
+    def __init__(s, world, params):
+        s.w, s.ex = world, world.ex
+        s.dev = 'T3'
+        s.k = params.get('k', 2)
+        s.tree = oracle.RefTree(world.devices[s.dev])
+        s.twin = params.get('twin', False)
+
+    def body(s):
+        ex, w = s.ex, s.w
+        n = ex.decide([(i, True) for i in range(1, s.k + 1)]) if s.k > 1 else 1
+        picks = [ex.decide([(i, True) for i in range(len(T3_UNITS))]) for _ in range(n)]
+        units = [T3_UNITS[i] for i in picks]
+        msg = ';'.join(units).encode() + b'\n' + b'VAL?;A\n'      # probe: both fail unless resolved from the root... VAL? needs SYST
+        s.msg = msg
+        dev, wr, rem = run_once(w, s.dev, list(msg), cap=None)
+        T = lambda c: bool(c)
+        exp1 = oracle.ref_message(s.tree, T, [unit_struct(u) for u in units], start=(('SYSTEM',) if s.twin else ()))
+        # expected observable: user handler calls, standard responses, one error per faulty message
+        calls = []
+        out = b''
+        errors = 0
+        for h in exp1:
+            if h == 'FAULT':
+                errors += 1
+                break
+            if h < s.tree.n_user:
+                calls.append(h)
+                ret = s.tree.decls[h]['ret']
+                if ret != '()':
+                    out += {'u8': b'7\n', 'bool': b'1\n', '&str': b'"s"\n'}[ret]
+            else:
+                out += STD_TEXT[s.tree.extra[h]]
+        # the probe message "VAL?;A" resolved from the root is undefined at its first unit: exactly one more error, nothing else
+        errors += 1
+        got_calls = calls_of(dev)
+        got_errs = len(dev.f[1].f[0].items)
+        got_out = bytes(x for x in wr.items if isinstance(x, int))
+        viol = None
+        if 'FAULT' in exp1:
+            # all or none of the units after the fault: prefix must match, nothing else is asserted about calls/output
+            if got_calls[:len(calls)] != calls or not got_out.startswith(out[:0]):
+                viol = f'units before the fault should call {calls}, got {got_calls}'
+        elif got_calls != calls or got_out != out or got_errs != errors:
+            viol = f'expected calls {calls}, responses {out!r}, {errors} error(s); got calls {got_calls}, responses {got_out!r}, {got_errs} error(s)'
+        return {'viol': viol, 'fault': 'FAULT' in exp1, 'units': units}
+
+    def on_leaf(s, out):
+        rec = {'kind': out[0]}
+        v = out[1]['viol'] if out[0] == 'ok' else out[1]
+        if out[0] == 'ok':
+            rec['fault'] = out[1]['fault']
+        if v:
+            rec['violations'] = [{'rule': 'TPATH' if out[0] == 'ok' else out[0].upper(), 'what': f'{v}; message {s.msg!r} on T3', 'input': s.msg.hex(), 'device': 'T3',
+                                  'units': out[1]['units'] if out[0] == 'ok' else None, 'role': 'TPATH'}]
+        if hash(tuple(map(str, s.ex.decisions))) % 173 == 0:
+            rec['sample'] = {'message': repr(s.msg)}
+        return rec
